@@ -197,6 +197,13 @@ fn walk(
             return Err(("wrong-path", format!("event reported under feature `{}` rule {:?}, expected `{}` {:?}", e.f, e.r, sc.feature, sc.rule)));
         }
     }
+    // "... then Finished, with no event of that attempt after it" - `Log` events included (they are
+    // otherwise transparent to the automaton)
+    if let Some(p) = a.ev.iter().position(|i| matches!(events[*i].sc(), Some((_, _, ScEv::Finished)))) {
+        if let Some(late) = a.ev.get(p + 1) {
+            return Err(("event-after-finished", format!("event #{late} `{}` of the attempt follows its Finished (#{})", short(&events[*late]), a.ev[p])));
+        }
+    }
     let seq: Vec<&ScEv> = a.ev.iter().filter_map(|i| events[*i].sc().map(|x| x.2)).filter(|e| !matches!(e, ScEv::Log(_))).collect();
     let mut it = seq.into_iter();
     let mut next = |what: &str| -> Result<&ScEv, WalkErr> { it.next().ok_or(("missing-event", format!("sequence ends, expected {what}"))) };
